@@ -78,7 +78,8 @@ def run_case(case, ctx, mon):
     s = sk()
     p, seed = case["p"], case["seed"]
     m = 1 << p
-    h = s.HyperLogLog(p, seed)
+    pt = case.get("p_type")
+    h = s.HyperLogLog(getattr(np, pt)(p) if pt else p, seed)
     thr = float(h.threshold)
     rng = np.random.default_rng(case["stream"])
     pts = grid(p, case["top_mult"], thr, dense=bool(case.get("dense")))
@@ -152,7 +153,8 @@ def gen_cases(ctx):
                 top = 40
             for _ in range(n_seeds):
                 seed = pick(rng, [0, 1, 2**32, 2**63, 2**64 - 1]) if rng.random() < 0.2 else int(rng.integers(0, 2**63)) * 2 + int(rng.integers(0, 2))
-                yield {"p": p, "seed": seed, "stream": int(rng.integers(0, 2**62)), "top_mult": top}
+                yield {"p": p, "seed": seed, "stream": int(rng.integers(0, 2**62)), "top_mult": top,
+                       "p_type": pick(rng, [None, None, "uint8", "int8", "int16", "uint16", "int64"])}
         rep += 1
         if q:
             return
